@@ -232,7 +232,7 @@ func (c *Ctx) autoPacketIDNonZero() {
 		}
 	}
 	c.R.Count("automatic packet-id sites", n)
-	c.R.Floor("automatic packet-id sites (PUBLISH, SUBSCRIBE, UNSUBSCRIBE Encode)", n, 3)
+	c.R.Floor("automatic packet-id sites (PUBLISH, SUBSCRIBE, UNSUBSCRIBE Encode, or a helper they share)", n, 2)
 }
 
 func derivesFromCounter(v ssa.Value, d int) bool {
@@ -427,9 +427,21 @@ func (c *Ctx) forwardedIDs() {
 // subscribeHandler: the function reached from the SUBSCRIBE case that calls tree Subscribe.
 func (c *Ctx) subscribeHandler() *ssa.Function {
 	for _, fn := range c.P.Funcs {
-		if recvNamed(fn) == "service" && fn.Parent() == nil && len(c.calls(fn, pkgTopics, "Manager", "Subscribe")) > 0 && len(c.calls(fn, pkgTopics, "Manager", "Retained")) > 0 {
+		// tree registration and retained lookup, in the function itself or in a helper it calls
+		if recvNamed(fn) == "service" && fn.Parent() == nil && hasParamNamed(fn, "SubscribeMessage") &&
+			len(c.hostedCalls(fn, mMethod(pkgTopics, "Manager", "Subscribe"), 2)) > 0 && len(c.hostedCalls(fn, mMethod(pkgTopics, "Manager", "Retained"), 2)) > 0 {
 			return fn
 		}
 	}
 	return nil
+}
+
+// hasParamNamed: fn has a parameter whose (pointer to) named type has the given name.
+func hasParamNamed(fn *ssa.Function, name string) bool {
+	for _, p := range fn.Params[1:] {
+		if namedName(p.Type()) == name {
+			return true
+		}
+	}
+	return false
 }
